@@ -7,4 +7,6 @@ mkdir -p "$HERE/bin" "$HERE/evidence" "$HERE/replays"
 cd "$HERE/harness" || exit 1
 go build -tags verif -o "$HERE/bin/check" ./cmd/check || exit 1
 go build -tags verif,tiny -o "$HERE/bin/check_tiny" ./cmd/check || exit 1
+go build -o "$HERE/bin/c14cases" ./cmd/c14cases || exit 1
+go build -race -tags verif -o "$HERE/bin/check_race" ./cmd/check || exit 1
 echo "setup ok"
